@@ -466,7 +466,8 @@ func camelCase(field string) string {
 		// (enum values are arbitrary strings)
 		return !unicode.IsLetter(r) && !unicode.IsDigit(r)
 	})
-	if len(parts) > 1 {
+	if len(parts) > 0 {
+		// also with a single word: it may carry leading or trailing separators
 		s = ""
 		for _, p := range parts {
 			s += cases.Title(language.Und, cases.NoLower).String(expandInitilaisms(p))
